@@ -23,7 +23,7 @@ RULE = (
     "a switch turned On by a single assignment is On afterwards and in the message published for it; AnyOfMany changes only named "
     "switches; the last published message equals the final state. 'hidden': histories that also hide and show switches (element-level "
     "enabled flag): the rule is asserted over all switches of the property, hidden ones included. 'handlers': histories on a driver "
-    "whose switches have plain Change handlers that re-publish the vector or turn a fallback switch On while they run: no state a "
+    "whose switches have plain Change handlers that re-publish the vector or turn a fallback switch On while they run, or with a Read handler whose k-th poll raises: no state a "
     "handler sees and no update published may break the rule. Non-trivial: the op turns Off the only On switch, or names >= 2 "
     "switches, or uses selected_value(s). Transitions are distinct by construction."
 )
